@@ -104,6 +104,10 @@ def judge_iso(y, w, inc, functional, level, obs):
             if any(x[i] != x[r[j]] for i in range(r[j], r[j + 1])):
                 bad.append("values not constant inside a block")
                 break
+        # the implementation merges blocks whenever the float values compare equal, so
+        # adjacent blocks of its own output must differ as floats
+        if any(x[r[j]] == x[r[j + 1]] for j in range(len(r) - 2)):
+            bad.append("adjacent blocks carry equal values")
     if functional == "median":
         functional, level = "quantile", 0.5
     a = Fraction(str(level))
